@@ -358,6 +358,11 @@ func (ex *Exec) instantiateGhostFuns(st *State, con *Contract, c *SpecCtx, ghost
 		if g.Opaque {
 			app := App(gi.Name, gi.Ret, vars...)
 			addAxiomFor(gi.Name, Forall(vars, Eq(app, body), []*Term{app}))
+			// second orientation: triggered by reads of the underlying array, so that raw
+			// reads (in callers, harnesses) give rise to the opaque application terms
+			if v2, b2 := absolutize(vars, Eq(app, body)); b2 != Eq(app, body) {
+				addAxiomFor(gi.Name, Forall(v2, b2))
+			}
 		} else {
 			DefineRecFun(gi.Name, vars, gi.Ret, body)
 		}
